@@ -344,7 +344,10 @@ def emit_items(src: Source, items, stub_ids=()):
             continue
         header, is_trait, ist, ibo, ien = enc
         if it.wrap:
+            # re-homing: a method of a trait impl whose trait is outside Verus (dyn Stream, Iterator, Display) is emitted
+            # as an inherent method with the same signature and body
             header = it.wrap
+            is_trait = False
         if not is_trait:
             segs.append(Seg(header + ' {\n', it.id, 'wrap'))
             segs += s
